@@ -562,6 +562,18 @@ def build_cell(template, cellvars, depth_up, parallel=False):
     return processes, steps, flow, topology
 
 
+def party_keys(templates):
+    """Keys directly below a cell that hold processes: the names of the
+    processes that are not nested, and 'sub' where a template nests them."""
+    out = set()
+    for t in templates.values():
+        if t.get('nest'):
+            out.add('sub')
+        else:
+            out.update(sp['name'] for sp in t.get('procs', []))
+    return sorted(out)
+
+
 class AProc(ScriptedMixin, Process):
     """Structural actor: maps its choice stream onto the compartments it
     currently sees in its glob ports `agents` and `pool`.
@@ -571,6 +583,7 @@ class AProc(ScriptedMixin, Process):
       ['noop'] ['add', state] ['del', i] ['delpath', i] ['gen', template, state]
       ['div', i, mode, template, st1, st2] ['move', i, src, dst] ['move_up', i, src, dst, amount]
       ['add_del', state, i] ['add_existing', i] ['write', i, var, value] ['multi_del', i, j]
+      ['del_party', i, j]
     """
     name = 'actor'
 
@@ -626,6 +639,13 @@ class AProc(ScriptedMixin, Process):
             c = pick('agents', op[1])
             if c is not None:
                 up['agents'] = {'_delete': [(c,)]}
+        elif kind == 'del_party':
+            # one party (or the sub-compartment holding the nested ones) of a cell is
+            # deleted, the cell stays; naming a key the cell does not hold deletes nothing
+            c = pick('agents', op[1])
+            names = party_keys(s['templates'])
+            if c is not None and names:
+                up['agents'] = {c: {'_delete': [names[op[2] % len(names)]]}}
         elif kind == 'multi_del':
             cs = [c for c in (pick('agents', op[1]), pick('agents', op[2])) if c is not None]
             cs = sorted(set(cs))
